@@ -3,94 +3,109 @@ import MythVerif.Proofs.WsQueueTsoBnd
 namespace MythVerif.WsqTso
 open MythVerif.Wsq
 
-set_option maxHeartbeats 4000000 in
 theorem bO_pt5 (s s' : St) (e off) : Inv s → Inv s' → Bnd s → s.opc = .pt5 e off → stepO s = some s' → Bnd s' := by
   intro h h' hb hpc hs
   have hcfg := h.cfg
   have hview := owner_views s h
+  have hbc := hb.pt5
   have a1 := h'.pu1; have a2 := h'.pu2; have a3 := h'.pux; have a4 := h'.pt7; have a5 := h'.pt8; have a6 := h'.shz; have a7 := h'.po3; have a8 := h'.po5
   simp only [stepO, hpc, releaseO, fenceOk, hcfg, code_unlockFence, code_pushRb, code_popFence, if_true] at hs
   all_goals (try split at hs)
   all_goals (try split at hs)
   all_goals (try simp at hs)
   all_goals (try (first | (subst hs; exact hb) | subst hs))
-  all_goals (cases h; cases hb)
-  all_goals simp only [hpc, ownerLocked, carry, resetting, ownerFlight] at *
   all_goals (
+    tso_coreO h hpc [pt5]
+    bnd_core hb
+    simp only [hpc, ownerLocked, carry, resetting, ownerFlight] at a1 a2 a3 a4 a5 a6 a7 a8 hview hbc
     constructor
-    all_goals (try simp only [ownerLocked, carry, resetting, ownerFlight, upd_apply, applySto])
-    all_goals (first | assumption | grind [thiefLocked, mayBuf, notTrans, thiefFlight, popWin, rcOff_bnd, Rc1Shape, Rc2Shape, RcPre, RcShape, InsShape, Pu2Shape, CarryShape] | skip))
+    all_goals (bnd_pick hb; rename_i hold)
+    all_goals (first | exact hold | (
+      (try simp only [hpc, upd_apply, applySto] at hold ⊢)
+      first | assumption | (intros; contradiction) | grind [thiefLocked, mayBuf, notTrans, thiefFlight, popWin, rcOff_bnd, Rc1Shape, Rc2Shape, RcPre, RcShape, InsShape, Pu2Shape, CarryShape] | skip)))
 
-set_option maxHeartbeats 4000000 in
 theorem bO_pt6 (s s' : St) (e) : Inv s → Inv s' → Bnd s → s.opc = .pt6 e → stepO s = some s' → Bnd s' := by
   intro h h' hb hpc hs
   have hcfg := h.cfg
   have hview := owner_views s h
+  have hbc := hb.pt6
   have a1 := h'.pu1; have a2 := h'.pu2; have a3 := h'.pux; have a4 := h'.pt7; have a5 := h'.pt8; have a6 := h'.shz; have a7 := h'.po3; have a8 := h'.po5
   simp only [stepO, hpc, releaseO, fenceOk, hcfg, code_unlockFence, code_pushRb, code_popFence, if_true] at hs
   all_goals (try split at hs)
   all_goals (try split at hs)
   all_goals (try simp at hs)
   all_goals (try (first | (subst hs; exact hb) | subst hs))
-  all_goals (cases h; cases hb)
-  all_goals simp only [hpc, ownerLocked, carry, resetting, ownerFlight] at *
   all_goals (
+    tso_coreO h hpc [pt6]
+    bnd_core hb
+    simp only [hpc, ownerLocked, carry, resetting, ownerFlight] at a1 a2 a3 a4 a5 a6 a7 a8 hview hbc
     constructor
-    all_goals (try simp only [ownerLocked, carry, resetting, ownerFlight, upd_apply, applySto])
-    all_goals (first | assumption | grind [thiefLocked, mayBuf, notTrans, thiefFlight, popWin, rcOff_bnd, Rc1Shape, Rc2Shape, RcPre, RcShape, InsShape, Pu2Shape, CarryShape] | skip))
+    all_goals (bnd_pick hb; rename_i hold)
+    all_goals (first | exact hold | (
+      (try simp only [hpc, upd_apply, applySto] at hold ⊢)
+      first | assumption | (intros; contradiction) | grind [thiefLocked, mayBuf, notTrans, thiefFlight, popWin, rcOff_bnd, Rc1Shape, Rc2Shape, RcPre, RcShape, InsShape, Pu2Shape, CarryShape] | skip)))
 
-set_option maxHeartbeats 4000000 in
 theorem bO_pt7 (s s' : St) (e b) : Inv s → Inv s' → Bnd s → s.opc = .pt7 e b → stepO s = some s' → Bnd s' := by
   intro h h' hb hpc hs
   have hcfg := h.cfg
   have hview := owner_views s h
+  have hbc := hb.pt7
   have a1 := h'.pu1; have a2 := h'.pu2; have a3 := h'.pux; have a4 := h'.pt7; have a5 := h'.pt8; have a6 := h'.shz; have a7 := h'.po3; have a8 := h'.po5
   simp only [stepO, hpc, releaseO, fenceOk, hcfg, code_unlockFence, code_pushRb, code_popFence, if_true] at hs
   all_goals (try split at hs)
   all_goals (try split at hs)
   all_goals (try simp at hs)
   all_goals (try (first | (subst hs; exact hb) | subst hs))
-  all_goals (cases h; cases hb)
-  all_goals simp only [hpc, ownerLocked, carry, resetting, ownerFlight] at *
   all_goals (
+    tso_coreO h hpc [pt7]
+    bnd_core hb
+    simp only [hpc, ownerLocked, carry, resetting, ownerFlight] at a1 a2 a3 a4 a5 a6 a7 a8 hview hbc
     constructor
-    all_goals (try simp only [ownerLocked, carry, resetting, ownerFlight, upd_apply, applySto])
-    all_goals (first | assumption | grind [thiefLocked, mayBuf, notTrans, thiefFlight, popWin, rcOff_bnd, Rc1Shape, Rc2Shape, RcPre, RcShape, InsShape, Pu2Shape, CarryShape] | skip))
+    all_goals (bnd_pick hb; rename_i hold)
+    all_goals (first | exact hold | (
+      (try simp only [hpc, upd_apply, applySto] at hold ⊢)
+      first | assumption | (intros; contradiction) | grind [thiefLocked, mayBuf, notTrans, thiefFlight, popWin, rcOff_bnd, Rc1Shape, Rc2Shape, RcPre, RcShape, InsShape, Pu2Shape, CarryShape] | skip)))
 
-set_option maxHeartbeats 4000000 in
 theorem bO_pt8 (s s' : St) (e b) : Inv s → Inv s' → Bnd s → s.opc = .pt8 e b → stepO s = some s' → Bnd s' := by
   intro h h' hb hpc hs
   have hcfg := h.cfg
   have hview := owner_views s h
+  have hbc := hb.pt8
   have a1 := h'.pu1; have a2 := h'.pu2; have a3 := h'.pux; have a4 := h'.pt7; have a5 := h'.pt8; have a6 := h'.shz; have a7 := h'.po3; have a8 := h'.po5
   simp only [stepO, hpc, releaseO, fenceOk, hcfg, code_unlockFence, code_pushRb, code_popFence, if_true] at hs
   all_goals (try split at hs)
   all_goals (try split at hs)
   all_goals (try simp at hs)
   all_goals (try (first | (subst hs; exact hb) | subst hs))
-  all_goals (cases h; cases hb)
-  all_goals simp only [hpc, ownerLocked, carry, resetting, ownerFlight] at *
   all_goals (
+    tso_coreO h hpc [pt8]
+    bnd_core hb
+    simp only [hpc, ownerLocked, carry, resetting, ownerFlight] at a1 a2 a3 a4 a5 a6 a7 a8 hview hbc
     constructor
-    all_goals (try simp only [ownerLocked, carry, resetting, ownerFlight, upd_apply, applySto])
-    all_goals (first | assumption | grind [thiefLocked, mayBuf, notTrans, thiefFlight, popWin, rcOff_bnd, Rc1Shape, Rc2Shape, RcPre, RcShape, InsShape, Pu2Shape, CarryShape] | skip))
+    all_goals (bnd_pick hb; rename_i hold)
+    all_goals (first | exact hold | (
+      (try simp only [hpc, upd_apply, applySto] at hold ⊢)
+      first | assumption | (intros; contradiction) | grind [thiefLocked, mayBuf, notTrans, thiefFlight, popWin, rcOff_bnd, Rc1Shape, Rc2Shape, RcPre, RcShape, InsShape, Pu2Shape, CarryShape] | skip)))
 
-set_option maxHeartbeats 4000000 in
 theorem bO_pt9 (s s' : St) : Inv s → Inv s' → Bnd s → s.opc = .pt9 → stepO s = some s' → Bnd s' := by
   intro h h' hb hpc hs
   have hcfg := h.cfg
   have hview := owner_views s h
+  have hbc := hb.pt9
   have a1 := h'.pu1; have a2 := h'.pu2; have a3 := h'.pux; have a4 := h'.pt7; have a5 := h'.pt8; have a6 := h'.shz; have a7 := h'.po3; have a8 := h'.po5
   simp only [stepO, hpc, releaseO, fenceOk, hcfg, code_unlockFence, code_pushRb, code_popFence, if_true] at hs
   all_goals (try split at hs)
   all_goals (try split at hs)
   all_goals (try simp at hs)
   all_goals (try (first | (subst hs; exact hb) | subst hs))
-  all_goals (cases h; cases hb)
-  all_goals simp only [hpc, ownerLocked, carry, resetting, ownerFlight] at *
   all_goals (
+    tso_coreO h hpc [pt9]
+    bnd_core hb
+    simp only [hpc, ownerLocked, carry, resetting, ownerFlight] at a1 a2 a3 a4 a5 a6 a7 a8 hview hbc
     constructor
-    all_goals (try simp only [ownerLocked, carry, resetting, ownerFlight, upd_apply, applySto])
-    all_goals (first | assumption | grind [thiefLocked, mayBuf, notTrans, thiefFlight, popWin, rcOff_bnd, Rc1Shape, Rc2Shape, RcPre, RcShape, InsShape, Pu2Shape, CarryShape] | skip))
+    all_goals (bnd_pick hb; rename_i hold)
+    all_goals (first | exact hold | (
+      (try simp only [hpc, upd_apply, applySto] at hold ⊢)
+      first | assumption | (intros; contradiction) | grind [thiefLocked, mayBuf, notTrans, thiefFlight, popWin, rcOff_bnd, Rc1Shape, Rc2Shape, RcPre, RcShape, InsShape, Pu2Shape, CarryShape] | skip)))
 
 end MythVerif.WsqTso
